@@ -370,9 +370,9 @@ def owns(prop, ev, tag):
     if prop == "C12":
         # (a panic where the reference construction yields a value is a difference from the reference too)
         if e == "hide":
-            return died or tag in ("hide-value", "hide-length", "hide-type", "hide-wire", "unexpected-panic")
+            return died or tag in ("hide-value", "hide-length", "hide-type", "hide-wire-form", "unexpected-panic")
         if e == "hide_reveal":
-            return died or tag in ("hide-value", "hide-wire")
+            return died or tag in ("hide-value", "hide-wire-form")
         return e == "reveal" and (died or tag == "reveal-value")
     if prop == "C13":
         return e == "reveal" and ev.get("v", {}).get("k") == "Hidden" and (died or tag in ("reveal-kind", "reveal-accepts-bad"))
@@ -388,7 +388,8 @@ def owns(prop, ev, tag):
             return died or tag == "verdict"          # a message full of unassigned codes must still be rejected
         return e in ("enum_map", "enum_names")
     if prop == "C17":
-        return e == "bitmask" and tag != "bitmask-layout"       # which bit carries which flag is C06's layout
+        # which bit carries which flag is C06's layout, and so is the header of the re-encoded record
+        return e == "bitmask" and tag not in ("bitmask-layout", "bitmask-reencode")
     if prop == "C18":
         return e in ("cursor", "vecwriter")
     if prop == "C20":
